@@ -12,6 +12,12 @@ CHECKS = {
 CHECKS['C04'] = dict(cat='model_checking', tech='explicit-state BFS over API histories on the real library, lock-step Python reference model, dedup on canonical raw tables + handle slots',
       text='Breadth-first exploration of every history of real API calls up to a depth bound in four small colliding universes (containers on two CIFs; loops/items in a block and its frame; packets incl. iterator edits; destroy). After every transition the return code, the full API dump of every CIF and white-box table invariants are compared with the reference data model; states are deduplicated on a canonical form of the real SQL tables plus handle slots.',
       note='Reference model mc/model.py is trusted (diffed against the real code on the unchanged tree; disagreements classified in DESIGN.md). Bounded depth and a small alphabet of names/values; handles used only while live.', ref='C04')
+CHECKS['C05'] = dict(cat='model_checking', tech='explicit-state BFS over API histories; at every reached state exhaustive application of the failing-call alphabet in 3 transaction contexts; raw-table before/after + differential follow-up oracle',
+      text='At every distinct state reached by BFS over valid histories (universes of C04, depth bound) every call of a candidate alphabet that the reference model says cannot succeed is executed on the real library - plainly, and inside an open packet iterator that is then closed or aborted. The real SQL tables and transaction state before and after must be identical, the call must return an error, and a fixed follow-up sequence of valid calls must behave exactly as in the same history without the failing call.',
+      note='Failing-call alphabet in mc/c05.py (offending element first/middle/last for create_loop, add_packet, iterator update; duplicates, invalid names, reserved category, empty packet, second scalar packet, destroyed loop). Which calls must fail is decided by the reference model.', ref='C05')
+CHECKS['C06'] = dict(cat='model_checking', tech='explicit-state BFS over all iterator call sequences (incl. life-cycle violations) per loop shape, reference iterator life cycle, dedup on raw tables + iterator model state',
+      text='For 26 loop shapes (1-3 items x 0-3 packets x ordinary/scalar x dense/sparse, with a second container whose loop numbers collide) every sequence of get_packets / next (new packet, NULL, into an existing packet) / update (9 packet shapes) / remove / close / abort / follow-up calls up to the depth bound is executed on the real library and compared with the four-state reference iterator; content is compared after every close/abort, return codes after every call.',
+      note='Delivery order is unspecified: packets are matched by content. update/remove after CIF_FINISHED may answer CIF_MISUSE or act on the last packet (documentation and property disagree, both admitted).', ref='C06')
 NOT_APPLICABLE = {}
 
 def main():
